@@ -26,7 +26,7 @@ structure Served where
   instant : Nat            -- target_utc_sec_ when onTimeExpired was entered
   prev : Nat               -- the instant this alarm served before (0 = none)
   wasRunning : Bool
-  flagsClear : Bool        -- neither `early` nor `wrapped` was set on the alarm
+  inRange : Bool           -- no arm of this alarm ever left the no-wrap range (`wrapped` unset)
 deriving Repr, DecidableEq
 
 structure World where
@@ -125,7 +125,7 @@ def wFire (w : World) (j : Nat) : World :=
   | some a =>
     let r := expire a w.env
     let ev : Served := { slot := j, instant := r.2.1, prev := a.lastServed, wasRunning := r.2.2,
-                         flagsClear := !a.early && !a.wrapped }
+                         inRange := !a.wrapped }
     let w1 := { w.put j (some r.1) with log := ev :: w.log }
     if a.hasCb then runScript w1 (w.script j) else w1
 
